@@ -406,6 +406,7 @@ finding `cleanup-dangling-parent`, established by fixes/C11-cleanup-dangling-par
   `pushEvent`, `pushLeftEvent`, `modInstX` on a kept uid with a relation-respecting update   proved (`aged_push_event`, `aged_mod_inst`)
   `applyOp op` for EVERY index write about a kept instance (all of `CoreIndex.Op` but `removeInst`) proved (`aged_index_write`, `aged_simple_index_write`)
   `setFlowStatus` (status + time stamp), `dropHeads` (`heads.clear()` + unregister)      proved (`aged_set_flow_status`, `aged_drop_heads`)
+  `abortFlow c … deactivate=True` on a discardable instance (done, not activated)        proved: a no-op (`deactivating_a_discardable_instance_is_a_noop`)
   `abortFlow`: deactivation loop `for c in x.childFlowUids: getInstX? c`                 needs I2 + `releaseAction`, `failedEvent`/`flowObjOf`, `restartActivated`
                                                                                          (reads of kept records only: same pattern) — not reached;
                                                                                          the look-up itself cannot fail newly: the aged child list is the live one filtered
@@ -464,6 +465,13 @@ theorem aged_simple_index_write {rm : List FUid} {s s' : VM} (h : Aged rm s s') 
     main restart, flow status, new instance) about a kept instance: same guard outcome, related states -/
 theorem aged_index_write {rm : List FUid} {s s' : VM} (h : Aged rm s s') (op : Op) (hk : keepB rm (opTarget op) = true)
     (hr : isRemove op = false) : Sim2 rm (fun _ _ => True) (applyOp op) (applyOp op) s s' := sim_applyOp h op hk hr
+
+/-- `_abort_flow(state, c, deactivate_flow=True)` on a done, non-activated instance (exactly what the clean-up discards) returns
+    at its status guard and leaves the state alone: the iterations of the live run's deactivation loops over children that
+    the aged run no longer lists change nothing -/
+theorem deactivating_a_discardable_instance_is_a_noop (fuel : Nat) (c : FUid) (scores : List Score) (s : VM) (x : InstX) (i : Inst)
+    (hx : OMap.lookup c s.r.fx = some x) (ha : x.activated = 0) (hi : findInst s.ixs.ix c = some i) (hd : i.status.done = true) :
+    abortFlow (fuel + 1) c scores true s = .ok () s := abortFlow_done_noop fuel c scores s x i hx ha hi hd
 
 theorem aged_set_flow_status {rm : List FUid} {s s' : VM} (h : Aged rm s s') {f : FUid} (hk : keepB rm f = true) (st : CoreIndex.FlowStatus) :
     Sim2 rm (fun _ _ => True) (setFlowStatus f st) (setFlowStatus f st) s s' := sim_setFlowStatus h hk st
@@ -530,6 +538,9 @@ example : ActParentsKept ["d"] sLive := by
     subst this; cases hp
   · have hd : f ≠ "d" := by intro e; subst e; simp [keepB] at hk
     simp [sLive, OMap.lookup, Ne.symm hm, Ne.symm hd] at hl
+
+example : OMap.lookup "d" sLive.r.fx = some xd ∧ xd.activated = 0 ∧
+    findInst sLive.ixs.ix "d" = some { uid := "d", status := .finished, heads := [] } := ⟨rfl, rfl, by rfl⟩
 
 example : keepB ["d"] "m" = true ∧ SimpleOpOn "m" (.setFlowStatus "m" .started) := ⟨by decide, .inl ⟨_, rfl⟩⟩
 example : keepB ["d"] (opTarget (.setPos "m" "h0" 1 (some "E2"))) = true ∧ isRemove (.setPos "m" "h0" 1 (some "E2")) = false :=
